@@ -198,6 +198,42 @@ pub fn corpus(rng: &mut Rng) -> Vec<(String, Vec<u8>)> {
     out
 }
 
+/// Valid files at the limits of the palette machinery: exactly 255 / 256 / 257 / 258 distinct colours in images that are
+/// not indexed yet (256 is the most a palette can hold), and an indexed image that uses all 256 entries of its palette
+pub fn boundary_files(rng: &mut Rng) -> Vec<(String, Vec<u8>)> {
+    let mut out = vec![];
+    for ct in [2u8, 6, 4] {
+        for n in [255u32, 256, 257, 258] {
+            let c = channels(ct);
+            let mut order: Vec<u32> = (0..n).collect();
+            for i in (1..order.len()).rev() {
+                let j = rng.below(i as u64 + 1) as usize;
+                order.swap(i, j);
+            }
+            let mut samples: Vec<u16> = Vec::with_capacity(n as usize * c);
+            for k in order {
+                match ct {
+                    2 => samples.extend([(k & 255) as u16, (k >> 8) as u16 * 40 + 3, 7]),
+                    6 => samples.extend([(k & 255) as u16, (k >> 8) as u16 * 40 + 3, 7, 255]),
+                    _ => samples.extend([(k & 255) as u16, 255 - (k >> 8) as u16]),
+                }
+            }
+            let (w, h) = if rng.bool() { (n, 1) } else { (1, n) };
+            let img = Grid { w, h, ct, depth: 8, palette: vec![], trns: None, samples }.pack(false);
+            out.push((format!("colours{}ct{}", n, ct), img.encode_png(rng, &EncOpts { level: 6, idat_parts: 1, ..Default::default() })));
+        }
+    }
+    let palette: Vec<[u8; 4]> = (0..256u32).map(|k| [(k * 7 % 256) as u8, (255 - k) as u8, (k * 13 % 256) as u8, if k % 5 == 0 { 128 } else { 255 }]).collect();
+    let mut idx: Vec<u16> = (0..256).collect();
+    for i in (1..idx.len()).rev() {
+        let j = rng.below(i as u64 + 1) as usize;
+        idx.swap(i, j);
+    }
+    let img = Grid { w: 16, h: 16, ct: 3, depth: 8, palette, trns: None, samples: idx }.pack(false);
+    out.push(("palette256".to_string(), img.encode_png(rng, &EncOpts { level: 6, idat_parts: 1, ..Default::default() })));
+    out
+}
+
 /// APNG encoder: `default_in_anim`: the default image is the first frame
 pub fn encode_apng(rng: &mut Rng, img: &HImg, extra_frames: usize, default_in_anim: bool, fdat_parts: usize) -> Vec<u8> {
     encode_apng_with(rng, img, extra_frames, default_in_anim, fdat_parts, &[])
@@ -573,6 +609,33 @@ pub fn oracle(ctx: &mut Ctx) {
                     }
                     if st.samples.len() < 4 && kind == "err" {
                         st.sample(format!("{} of {} -> {}", mname, fname, ans));
+                    }
+                }
+            }
+        }
+    }
+    // valid files at the limits of the palette machinery, unmutated, under several option sets
+    for (fname, file) in boundary_files(&mut rng) {
+        for k in 0..4 {
+            let mut opts = gen_opts(&mut rng, Profile::Any, false);
+            if k == 0 { opts = HOpts::from_preset(2); }
+            if k == 1 { opts = HOpts::from_preset(4); }
+            if let Err(_) = opts.deflate { opts.deflate = Ok(5); }
+            st.count("boundary_cases");
+            let replay = format!("{{\"entry\": \"mem\", \"file\": {}, \"options\": {}, \"input_hex\": {}}}", jstr(&fname), jstr(&opts.show()), jstr(&hex(&file)));
+            match w.ask("mem", &opts, &file) {
+                None => {
+                    let status = w.kill();
+                    st.fail("abort", format!("process died ({}) on the valid file {}", status, fname), replay);
+                    w = Worker::spawn();
+                }
+                Some(ans) => {
+                    let kind = ans.split_whitespace().next().unwrap_or("?").to_string();
+                    st.count(&format!("boundary_{}", kind));
+                    if kind == "panic" {
+                        st.fail("panic", format!("panic on the valid file {} ({})", fname, opts.show()), replay);
+                    } else if kind == "err" {
+                        st.fail("error-on-valid", format!("the valid file {} is rejected ({})", fname, ans), replay);
                     }
                 }
             }
